@@ -136,6 +136,9 @@ fn main() {
             for _ in 0..a.num("hist", 6) {
                 out.put_all(&w.exec(&warm::random_history(&mut rng, a.num("small", 1) == 1)));
             }
+            for k in 0..a.num("ramps", 0) {
+                out.put_all(&w.exec(&warm::ramp_history(k as usize)));
+            }
             println!("events={}", out.lines);
             out.finish();
         }
